@@ -619,8 +619,10 @@ private:
       using row_buffer_helper_t = Buffer;
       using it_t = typename row_buffer_helper_t::iterator_t;
 
-      std::size_t size_to_allocate = buffer_size< typename View::value_type >( dst_view.width()
-                                                                             , is_view_bit_aligned_t() );
+      // the buffer holds one scanline of the FILE: size it in elements of the buffer's own type (the destination's pixel
+      // may be larger when the data is converted, and narrower than the image when a sub-rectangle is read)
+      std::size_t size_to_allocate = buffer_size< typename row_buffer_helper_t::element_t >( dst_view.width()
+                                                                                           , is_view_bit_aligned_t() );
       row_buffer_helper_t row_buffer_helper( size_to_allocate, true );
 
       it_t begin = row_buffer_helper.begin();
